@@ -741,6 +741,7 @@ async fn run_config(ctx: &Ctx<'_>, rep: &mut Reporter, stage: &Stage, dir: &Path
 
     if ctx.cfg.name == "none" {
         ws_preregistration(ctx, rep, &server, stage).await;
+        revocation_survives_refused_patch(ctx, rep, &server, stage).await;
     }
     // 4. valid controls for admitted identities: the handler must be reached
     if ctx.cfg.documented_allows(&m.a.id) {
@@ -764,6 +765,72 @@ async fn run_config(ctx: &Ctx<'_>, rep: &mut Reporter, stage: &Stage, dir: &Path
     Ok(())
 }
 
+
+/// A REFUSED request of a trusted device must not bring a revoked device back: the owner's
+/// own device sends a rewind-and-patch for the device log that rewinds past the Revoke event,
+/// brings the discarded records back (so the rewind itself is admissible) but carries a proof
+/// that is not the head of the rewound log; the server answers with a conflict and restores
+/// the log. Afterwards the revoked key is still refused and not in the trusted set.
+async fn revocation_survives_refused_patch(ctx: &Ctx<'_>, rep: &mut Reporter, server: &TestServer, stage: &Stage) {
+    use sos_core::events::EventLog;
+    use sos_sync::StorageEventLogs;
+    let m = &stage.material;
+    let revoked_pk = hex::encode(m.revoked.verifying_key().as_bytes());
+    let Some(acc) = ({ server.backend.read().await.accounts().read().await.get(&m.a.id).cloned() }) else { return };
+    let (records, head) = {
+        let acc = acc.read().await;
+        let Ok(log) = acc.device_log().await else { return };
+        let log = log.read().await;
+        let Ok(records) = log.diff_records(None).await else { return };
+        let Ok(head) = log.tree().head() else { return };
+        (records, head)
+    };
+    // the last Revoke of that key
+    let mut at = None;
+    for (i, r) in records.iter().enumerate() {
+        if let Ok(DeviceEvent::Revoke(k)) = r.decode_event::<DeviceEvent>().await {
+            if hex::encode(k.as_ref()) == revoked_pk {
+                at = Some(i);
+            }
+        }
+    }
+    let Some(at) = at else {
+        rep.count("refused_patch_probe_skipped_no_revoke_event", 1);
+        return;
+    };
+    if at == 0 {
+        return;
+    }
+    let body = match (PatchRequest { log_type: EventLogType::Device, commit: Some(*records[at - 1].commit()), proof: head, patch: records[at..].to_vec() }).encode().await {
+        Ok(b) => b,
+        Err(_) => return,
+    };
+    let Some(route) = m.routes.iter().find(|r| r.method == "PATCH" && r.path.ends_with("/sync/account/events")).cloned() else { return };
+    let r2 = Route { body: Some(body), ..route };
+    let Some(req) = build(m, &r2, "valid", &m.a).await else { return };
+    let status = match http::raw(&ctx.client, &server.url, &req, WAIT).await {
+        Ok(resp) => resp.status,
+        Err(_) => 0,
+    };
+    rep.count("requests", 1);
+    rep.count(&format!("refused_device_rewind_patch:status_{status}"), 1);
+    let mut h = Fnv::new();
+    h.str("refused_device_rewind_patch").u64(ctx.server_db as u64).u64(at as u64);
+    rep.case(h.finish(), true);
+    let replay = json!({"check": "c11", "seed": ctx.args.seed, "shard": ctx.args.shard, "step": "refused device rewind-and-patch past the Revoke event", "server_backend": if ctx.server_db {"db"} else {"fs"}, "answer": status});
+    let trusted = server.trusted_keys(&m.a.id).await.unwrap_or_default();
+    if trusted.contains(&revoked_pk) {
+        rep.violation("C11:refused_patch:revoked_device_trusted_again", "after a refused rewind-and-patch of the device log (sent by the owner's trusted device) the running server lists the revoked device key as trusted again", replay.clone());
+    }
+    let Some(status_route) = m.routes.iter().find(|r| r.method == "GET" && r.path.ends_with("/status")).cloned() else { return };
+    if let Some(probe) = build(m, &status_route, "revoked_key", &m.a).await {
+        match http::raw(&ctx.client, &server.url, &probe, WAIT).await {
+            Ok(resp) if (200..300).contains(&resp.status) => rep.violation("C11:refused_patch:revoked_key_served", &format!("after a refused rewind-and-patch of the device log a request signed by the revoked device was answered {}", resp.status), replay),
+            Ok(_) => rep.count("revoked_key_refused_after_refused_patch", 1),
+            Err(_) => {}
+        }
+    }
+}
 
 /// Consequence of `verify_device` answering Ok for an account the server
 /// does not hold: anybody can register a websocket for an account id that
